@@ -14,7 +14,7 @@ import numpy as np
 from ..symreal import core, shim
 from ..symreal.core import S, symarr, vjp, new_session, Explorer, PathBudgetExceeded, evalarr
 from ..symreal.discharge import prove_equal
-from ..symreal.harness import domain_constraints, var_names, domain_sample
+from ..symreal.harness import domain_constraints, var_names, domain_sample, lay
 
 K = "synapgrad.cpu_ops."
 
@@ -34,6 +34,7 @@ class KCase:
         self.max_paths = max_paths
         self.scalars = scalars
         self.functions = (K + kernel + "_forward", K + kernel + "_backward")
+        self.layout = "C"                       # memory layout of the operand arrays (C | F | strided): contracts hold for any
 
     def run(self, seed):
         res = {"name": self.name, "key": {k: _j(v) for k, v in self.key.items()}, "obligations": 0, "discharged": 0, "backends": {}, "paths": 0, "solver_s": 0.0,
@@ -67,7 +68,7 @@ class KCase:
             ex = Explorer(max_paths=self.max_paths)
 
             def one_path():
-                args = {n: A[n].copy() for n in A}
+                args = {n: lay(A[n].copy(), self.layout) for n in A}
                 args.update(sc)
                 snaps = {n: args[n].copy() for n in A}
                 fr = self.fwd(args)
@@ -149,12 +150,12 @@ class KCase:
                 vals[n] = domain_sample(rng, dom)
 
             def f(v):
-                fr = self.fwd({k: (x.copy() if isinstance(x, np.ndarray) else x) for k, x in v.items()})
+                fr = self.fwd({k: (lay(x.copy(), self.layout) if isinstance(x, np.ndarray) else x) for k, x in v.items()})
                 return np.asarray(fr[0] if isinstance(fr, tuple) else fr, dtype=np.float64), fr
             try:
                 out, fr = f(vals)
                 g = np.array([rng.uniform(-2, 2) for _ in range(max(out.size, 1))]).reshape(out.shape)
-                grads = self.bwd(g.copy(), {k: (x.copy() if isinstance(x, np.ndarray) else x) for k, x in vals.items()}, fr)
+                grads = self.bwd(g.copy(), {k: (lay(x.copy(), self.layout) if isinstance(x, np.ndarray) else x) for k, x in vals.items()}, fr)
             except Exception as e:
                 rep.update({"reproduced": True, "native_exception": "%s: %s" % (type(e).__name__, str(e)[:200])})
                 return rep
@@ -190,6 +191,28 @@ def _j(v):
     if isinstance(v, (str, int, float, bool)) or v is None:
         return v
     return repr(v)
+
+
+def kernel_layout_variants(cs, tier):
+    """the same kernel contracts with operand arrays in Fortran order / as strided views (each-value coverage of the configuration
+    fields in quick, everything in thorough)"""
+    import copy
+    out, seen = [], {}
+    for i, c in enumerate(cs):
+        if not any(len(sh) >= 2 for _, sh, _ in c.operands):
+            continue
+        if tier != "thorough":
+            sn = seen.setdefault(c.kernel, set())
+            new = {(k, repr(v)) for k, v in c.key.items()} - sn
+            if not new:
+                continue
+            sn |= new
+        for l in (("F", "strided") if tier == "thorough" else (("F",) if i % 3 else ("strided",))):
+            v = copy.copy(c)
+            v.layout = l
+            v.key = dict(c.key, operand_layout=l)
+            out.append(v)
+    return out
 
 
 def tensor_kernels(tier):
@@ -269,7 +292,7 @@ def tensor_kernels(tier):
                     add("unfold_dim", {"shape": shape, "dimension": dim, "size": size, "step": step}, [("a", shape, ANY)],
                         lambda A, dim=dim, size=size, step=step: C.unfold_dim_forward(A["a"], dim, size, step),
                         lambda g, A, o, dim=dim, size=size, step=step: C.unfold_dim_backward(g, A["a"].shape, dim, size, step))
-    return cs
+    return cs + kernel_layout_variants(cs, tier)
 
 
 def nn_kernels(tier):
@@ -348,4 +371,4 @@ def nn_kernels(tier):
                 return [x for x in r if x is not None]
             add("batch_norm", {"shape": shape, "training": training, "affine": affine, "running_stats": running}, ops, fwd, bwd,
                 diff=["x"] + (["gamma", "beta"] if affine else []), scalars=[("eps", "pos"), ("mom", "unit")])
-    return cs
+    return cs + kernel_layout_variants(cs, tier)
